@@ -429,6 +429,12 @@ func probeFramework() ([]string, error) {
 // typeClass says what kind of generated type a diagnostic is about.
 func typeClass(t string) string {
 	t = strings.TrimLeft(t, "*[]")
+	// OptString, NilInt32, OptNilBool ...: the prefix is followed by an upper-case letter (Option, Options are not)
+	for _, pre := range []string{"OptNil", "Opt", "Nil"} {
+		if strings.HasPrefix(t, pre) && len(t) > len(pre) && t[len(pre)] >= 'A' && t[len(pre)] <= 'Z' {
+			return "generic-wrapper"
+		}
+	}
 	switch {
 	case frameworkIdents[t]:
 		return t
